@@ -275,13 +275,17 @@ func scan(r row, res *Result, input []byte, t atype) error {
 			r[t.pos] = input[:32]
 		}
 	case 'd':
-		length := int(bint.Decode(input[:32]))
-		if length == 0 {
-			return nil
-		}
-		if len(input) < 32+length {
+		if len(input) < 32 {
 			return errors.New("EOF")
 		}
+		n := bint.Decode(input[:32])
+		if n == 0 {
+			return nil
+		}
+		if uint64(len(input)-32) < n {
+			return errors.New("EOF")
+		}
+		length := int(n)
 		if t.sel {
 			r[t.pos] = input[32 : 32+length]
 		}
@@ -294,7 +298,11 @@ func scan(r row, res *Result, input []byte, t atype) error {
 			if len(input) < 32 {
 				return errors.New("EOF")
 			}
-			length, start, pos = int(bint.Decode(input[:32])), 32, 32
+			n := bint.Decode(input[:32])
+			if uint64(len(input)-32)/32 < n {
+				return errors.New("EOF")
+			}
+			length, start, pos = int(n), 32, 32
 		}
 		for i := 0; i < length; i++ {
 			if !t.hasKind('a') {
@@ -314,10 +322,11 @@ func scan(r row, res *Result, input []byte, t atype) error {
 				if len(input) < pos+32 {
 					return errors.New("EOF")
 				}
-				offset := int(bint.Decode(input[pos : pos+32]))
-				if len(input) < start+offset {
+				off := bint.Decode(input[pos : pos+32])
+				if uint64(len(input)-start) < off {
 					return errors.New("EOF")
 				}
+				offset := int(off)
 				err := scan(r, res, input[start+offset:], *t.elem)
 				if err != nil {
 					return errors.New("EOF")
@@ -346,10 +355,11 @@ func scan(r row, res *Result, input []byte, t atype) error {
 				if len(input) < pos+32 {
 					return errors.New("EOF")
 				}
-				offset := int(bint.Decode(input[pos : pos+32]))
-				if len(input) < offset {
+				off := bint.Decode(input[pos : pos+32])
+				if uint64(len(input)) < off {
 					return errors.New("EOF")
 				}
+				offset := int(off)
 				err := scan(r, res, input[offset:], f)
 				if err != nil {
 					return errors.New("EOF")
